@@ -56,12 +56,15 @@ Eval(e, s) ==
               IN [cl |-> [FindWellFormed |-> TRUE,
                           FoundCellContainsPoint |-> FoundCellContainsPoint(s.m, e.pts, e.res, e.err, ct),
                           PointsOfTheDomainAreFound |-> PointsOfTheDomainAreFound(s.m, e.pts, e.err, ct),
-                          BoundaryPointsAreFound |-> BoundaryPointsAreFound(e.pts, e.err, ct),
+                          BoundaryPointsAreFound |-> BoundaryPointsAreFound(s.m, e.pts, e.err, ct),
                           RaisesOutside |-> RaisesOutside(s.m, e.pts, e.err, ct)],
                   info |-> (IF e.err = "" THEN {"Info_Found"} ELSE {"Info_Raised"})
                            \cup (IF \E n \in DOMAIN ct : Cardinality(ct[n]) >= 2 THEN {"Info_PointOnSharedFacet"} ELSE {})
                            \cup (IF \E n \in DOMAIN ct : ct[n] = {} /\ ~FarOutside(s.m, e.pts[n], ct[n])
                                  THEN {"Info_NearOutsidePoint"} ELSE {})
+                           \cup (IF e.err # "" /\ (\A n \in DOMAIN ct : ct[n] # {})
+                                    /\ BoundaryPointsAreFound(s.m, e.pts, e.err, ct)
+                                 THEN {"Info_RaiseOnIllConditionedBoundaryPoint"} ELSE {})
                            \cup (IF e.model = 1
                                  THEN (IF imp.res = e.res /\ ((imp.err = "") <=> (e.err = ""))
                                        THEN {"Info_ModelAgrees"} ELSE {"Info_ModelDrift"})
@@ -108,13 +111,13 @@ Eval(e, s) ==
          ELSE LET ct == ContainingAll(s.m, e.pts)
                   bb == IF e.ypart = "im" THEN [s.b EXCEPT !.y = s.b.y2] ELSE s.b IN
            IF e.ferr # "" THEN [cl |-> [PointsOfTheDomainAreFound |-> PointsOfTheDomainAreFound(s.m, e.pts, e.ferr, ct),
-                                        BoundaryPointsAreFound |-> BoundaryPointsAreFound(e.pts, e.ferr, ct)],
+                                        BoundaryPointsAreFound |-> BoundaryPointsAreFound(s.m, e.pts, e.ferr, ct)],
                                 info |-> {"Info_ProbeFinderRaised"}, st |-> s]
            ELSE IF e.err # "" THEN [cl |-> [NoUnexpectedError |-> FALSE], info |-> {}, st |-> s]
            ELSE IF ~PointSourceVecWF(s.m, bb, e) THEN [cl |-> [ProbeWellFormed |-> FALSE], info |-> {}, st |-> s]
            ELSE [cl |-> [ProbeWellFormed |-> TRUE, NoUnexpectedError |-> TRUE,
                          FoundCellContainsPoint |-> FoundCellContainsPoint(s.m, e.pts, e.cells, "", ct),
-                         PointSourceIsFirstRowOfProbes |-> PointSourceIsFirstRowOfProbes(s.m, bb, e)],
+                         PointSourceIsOneRowOfProbes |-> PointSourceIsOneRowOfProbes(s.m, bb, e)],
                  info |-> {"Info_op_point_source_vector", "Info_coef_" \o e.coef \o "_" \o e.ypart}, st |-> s]
     [] e.a = "Probe" ->
          IF ~s.ok \/ s.b = <<>> THEN [cl |-> <<>>, info |-> {"Info_Skipped"}, st |-> s]
@@ -122,7 +125,7 @@ Eval(e, s) ==
            IF e.ferr # ""
            THEN \* the element finder raised: probing raises for the same reason; judged like a Find event
                 [cl |-> [PointsOfTheDomainAreFound |-> PointsOfTheDomainAreFound(s.m, e.pts, e.ferr, ct),
-                         BoundaryPointsAreFound |-> BoundaryPointsAreFound(e.pts, e.ferr, ct)],
+                         BoundaryPointsAreFound |-> BoundaryPointsAreFound(s.m, e.pts, e.ferr, ct)],
                  info |-> {"Info_ProbeFinderRaised"}, st |-> s]
            ELSE IF e.err # ""
            THEN \* all points were located: probing must not raise
